@@ -526,25 +526,29 @@ func Run(rep *report.Report, tier string) {
 							exp = true
 						}
 					}
-					var opts []chk.ErrorOpt
-					if allowU {
-						opts = append(opts, chk.AllowUnimplemented())
-					}
-					if ignD {
-						opts = append(opts, chk.IgnoreDetails())
-					}
-					failed, crash := fatal(func(t testing.TB) { chk.HasRecvClientErrorWithStatus(t, ec.err, want, opts...) })
-					sample := map[string]any{"helper": "HasRecvClientErrorWithStatus", "error": ec.name, "want": want.Proto().String(), "allow_unimplemented": allowU, "ignore_details": ignD}
-					var fs []fail
+					orders := [][]chk.ErrorOpt{nil}
 					switch {
-					case crash != "":
-						fs = append(fs, fail{"C17/HasRecvClientErrorWithStatus/panic", fmt.Sprintf("panicked (%s) on %v", crash, sample)})
-					case failed && exp:
-						fs = append(fs, fail{"C17/HasRecvClientErrorWithStatus/fails-although-present", fmt.Sprintf("%v", sample)})
-					case !failed && !exp:
-						fs = append(fs, fail{"C17/HasRecvClientErrorWithStatus/passes-although-absent", fmt.Sprintf("%v", sample)})
+					case allowU && ignD: // the options are documented as independent: both orders
+						orders = [][]chk.ErrorOpt{{chk.AllowUnimplemented(), chk.IgnoreDetails()}, {chk.IgnoreDetails(), chk.AllowUnimplemented()}}
+					case allowU:
+						orders = [][]chk.ErrorOpt{{chk.AllowUnimplemented()}}
+					case ignD:
+						orders = [][]chk.ErrorOpt{{chk.IgnoreDetails()}}
 					}
-					record(fmt.Sprintf("HasRecvClientErrorWithStatus/present=%v", exp), fs, sample)
+					for oi, opts := range orders {
+						failed, crash := fatal(func(t testing.TB) { chk.HasRecvClientErrorWithStatus(t, ec.err, want, opts...) })
+						sample := map[string]any{"helper": "HasRecvClientErrorWithStatus", "error": ec.name, "want": want.Proto().String(), "allow_unimplemented": allowU, "ignore_details": ignD, "option_order": oi}
+						var fs []fail
+						switch {
+						case crash != "":
+							fs = append(fs, fail{"C17/HasRecvClientErrorWithStatus/panic", fmt.Sprintf("panicked (%s) on %v", crash, sample)})
+						case failed && exp:
+							fs = append(fs, fail{"C17/HasRecvClientErrorWithStatus/fails-although-present", fmt.Sprintf("%v", sample)})
+						case !failed && !exp:
+							fs = append(fs, fail{"C17/HasRecvClientErrorWithStatus/passes-although-absent", fmt.Sprintf("%v", sample)})
+						}
+						record(fmt.Sprintf("HasRecvClientErrorWithStatus/present=%v", exp), fs, sample)
+					}
 				}
 			}
 		}
@@ -659,6 +663,9 @@ func statusWants() []*status.Status {
 		out = append(out, status.New(c, ""), status.New(c, "msg"))
 		d, _ := status.New(c, "").WithDetails(&spb.ModifyRPCErrorDetails{Reason: spb.ModifyRPCErrorDetails_UNSUPPORTED_PARAMS})
 		out = append(out, d)
+		// message AND details: under IgnoreDetails the message must still be compared
+		dm, _ := status.New(c, "msg").WithDetails(&spb.ModifyRPCErrorDetails{Reason: spb.ModifyRPCErrorDetails_UNSUPPORTED_PARAMS})
+		out = append(out, dm)
 	}
 	return out
 }
@@ -667,10 +674,13 @@ func errorCases() []errCase {
 	var out []errCase
 	out = append(out, errCase{name: "nil", err: nil})
 	out = append(out, errCase{name: "plain error", err: errors.New("x")})
-	mk := func(c codes.Code, msg string, det bool) error {
+	mk := func(c codes.Code, msg string, det int) error {
 		s := status.New(c, msg)
-		if det {
+		switch det {
+		case 1:
 			s, _ = s.WithDetails(&spb.ModifyRPCErrorDetails{Reason: spb.ModifyRPCErrorDetails_UNSUPPORTED_PARAMS})
+		case 2: // other details than any want carries
+			s, _ = s.WithDetails(&spb.ModifyRPCErrorDetails{Reason: spb.ModifyRPCErrorDetails_MODIFY_NOT_ALLOWED})
 		}
 		return s.Err()
 	}
@@ -678,7 +688,7 @@ func errorCases() []errCase {
 	var names []string
 	for _, c := range []codes.Code{codes.FailedPrecondition, codes.Unimplemented, codes.InvalidArgument, codes.Unknown} {
 		for _, msg := range []string{"", "msg", "other"} {
-			for _, det := range []bool{false, true} {
+			for _, det := range []int{0, 1, 2} {
 				singles = append(singles, mk(c, msg, det))
 				names = append(names, fmt.Sprintf("%s/%q/details=%v", c, msg, det))
 			}
